@@ -26,8 +26,28 @@ Record kst := mkks {
   ks_arg : option Z;                   (* key_processor.arg, as a number *)
   ks_oparg : option Z;                 (* vi_state.operator_arg *)
   ks_op : option (opk * list Z);       (* vi_state.operator_func *)
-  ks_last : option (tobj * bool)       (* text object given to the last operator applied (ghost) *)
+  ks_last : option (tobj * bool);      (* text object given to the last operator applied (ghost) *)
+  ks_find : option (Z * bool)          (* vi_state.last_character_find: (character, backwards) *)
 }.
+
+(* f F t T store the search BEFORE searching, whether or not the character is
+   found (under an operator and as plain motions alike); nothing else touches it *)
+Definition upd_find (f : option (Z * bool)) (m : tok) : option (Z * bool) :=
+  match m with
+  | T_f ch | T_t ch => Some (ch, false)
+  | T_F ch | T_T ch => Some (ch, true)
+  | _ => f
+  end.
+
+(* ; and , repeat the stored search (no stored search: TextObject(0)) *)
+Definition resolve_tok (f : option (Z * bool)) (m : tok) : tok :=
+  match m with
+  | T_rep rv => match f with
+                | Some (ch, bw) => T_repeat rv true ch bw
+                | None => T_repeat rv false 0 false
+                end
+  | _ => m
+  end.
 
 (* KeyPressEvent.arg: int(_arg or 1), a million or more counts as 1 *)
 Definition ev_arg (a : option Z) : Z :=
@@ -49,32 +69,34 @@ Definition cancelled (o : tobj) (failed : bool) : bool :=
 Definition key_step_gen (patched : bool) (s : kst) (key : kkey) : Z * kst :=
   let st := ks_vst s in
   let b := vbuf st in
-  let motion (m : tok) : Z * kst :=
+  let motion (m0 : tok) : Z * kst :=
+    let m := resolve_tok (ks_find s) m0 in
+    let fd := upd_find (ks_find s) m0 in
     match ks_op s with
     | Some (k, keys) =>
         (* _apply_operator_to_text_object *)
         let hc := is_some (ks_oparg s) || is_some (ks_arg s) in
         let n := if hc then ev_arg (Some (or1 (ks_oparg s) * ev_arg (ks_arg s))) else 1 in
         match text_object m (bdoc b) n hc with
-        | TOErr => (1, mkks st None (ks_oparg s) (ks_op s) (ks_last s))   (* raised before the try/finally *)
+        | TOErr => (1, mkks st None (ks_oparg s) (ks_op s) (ks_last s) fd)   (* raised before the try/finally *)
         | TO o failed =>
             if patched && cancelled o failed
-            then (0, mkks (with_buf st (fix_vi_cursor b)) None None None (ks_last s))   (* _fix_vi_cursor_position runs after every handler *)
+            then (0, mkks (with_buf st (fix_vi_cursor b)) None None None (ks_last s) fd)   (* _fix_vi_cursor_position runs after every handler *)
             else
             let '(status, st1) := run_op k st o (mkev n keys) in
             let st2 := if (status =? 0) && negb (vins st1)
                        then with_buf st1 (fix_vi_cursor (vbuf st1)) else st1 in
-            (status, mkks st2 None None None (Some (o, failed)))
+            (status, mkks st2 None None None (Some (o, failed)) fd)
         end
     | None =>
         (* _move_in_navigation_mode: cursor_position += text_object.start *)
         let n := ev_arg (ks_arg s) in
         match text_object m (bdoc b) n (is_some (ks_arg s)) with
-        | TOErr => (1, mkks st None (ks_oparg s) None (ks_last s))
+        | TOErr => (1, mkks st None (ks_oparg s) None (ks_last s) fd)
         | TO o failed =>
             let b1 := fix_vi_cursor (if patched && failed then b
                                      else set_cursor b (bcur b + tstart o)) in
-            (0, mkks (with_buf st b1) None (ks_oparg s) None (ks_last s))
+            (0, mkks (with_buf st b1) None (ks_oparg s) None (ks_last s) fd)
         end
     end in
   match key with
@@ -83,19 +105,19 @@ Definition key_step_gen (patched : bool) (s : kst) (key : kkey) : Z * kst :=
          navigation mode, i.e. not while an operator is pending *)
       let st' := match ks_op s with None => with_buf st (fix_vi_cursor b) | Some _ => st end in
       match ks_arg s with
-      | Some a => (0, mkks st' (Some (10 * a + d)) (ks_oparg s) (ks_op s) (ks_last s))
+      | Some a => (0, mkks st' (Some (10 * a + d)) (ks_oparg s) (ks_op s) (ks_last s) (ks_find s))
       | None =>
           if d =? 0 then motion T_zero     (* no count yet: 0 is the start-of-line motion *)
-          else (0, mkks st' (Some d) (ks_oparg s) (ks_op s) (ks_last s))
+          else (0, mkks st' (Some d) (ks_oparg s) (ks_op s) (ks_last s) (ks_find s))
       end
   | KO k keys =>
       match ks_op s with
       | Some _ => (3, s)
       | None =>
           (0, mkks st None (if is_some (ks_arg s) then Some (ev_arg (ks_arg s)) else None)
-                   (Some (k, keys)) (ks_last s))
+                   (Some (k, keys)) (ks_last s) (ks_find s))
       end
-  | KE => (0, mkks (with_buf st (fix_vi_cursor b)) None None None (ks_last s))
+  | KE => (0, mkks (with_buf st (fix_vi_cursor b)) None None None (ks_last s) (ks_find s))
   | KM m => motion m
   end.
 
@@ -113,7 +135,7 @@ Fixpoint run_keys_gen (patched : bool) (s : kst) (keys : list kkey) : Z * kst :=
 Definition run_keys := run_keys_gen true.
 
 Definition init_ks (text : str) (cur : Z) : kst :=
-  mkks (mkvst (mkbuf text cur) None None false) None None None None.
+  mkks (mkvst (mkbuf text cur) None None false) None None None None None.
 
 (* ---------------------------------------------------------------------- *)
 (* Wire: session case = (text cursor (key ...)); key = (1 d) | (2 op (k ...)) | (3) | (4 tok) *)
